@@ -205,7 +205,9 @@ def run_loop_isolated(rel, qualname, ordinal, ctx=None, find_kw=None, inner_mode
         raise Undecided("function has %d loops, contract names loop %d" % (len(loops), ordinal))
     node = loops[ordinal]
     inner_modes = inner_modes or {}
+    inner_entries = {}
     def loop(ex, st, n, o):
+        inner_entries.setdefault(o, []).append(st.clone())      # states in which an inner loop is reached (for reachability obligations)
         if inner_modes.get(o) == "unroll":
             return ex.unroll(n, st)
         return ex.havoc_loop(n, st)
@@ -240,7 +242,7 @@ def run_loop_isolated(rel, qualname, ordinal, ctx=None, find_kw=None, inner_mode
     for x in A.walk(node):
         if x.get("kind") == "VarDecl" and "id" in x and "name" in x:
             names[x["name"]] = x["id"]           # declarations inside the loop shadow same-named ones elsewhere in the function
-    info = {"names": names, "node": node, "nloops": len(loops)}
+    info = {"names": names, "node": node, "nloops": len(loops), "inner_entries": inner_entries}
     res = ex.iterate_loop(node, st, prepare=(lambda ex_, s_: prepare(ex_, s_, info)) if prepare is not None else None)
     return fn, ex, res, info
 
